@@ -211,7 +211,7 @@ def expected_session(rendered):
 
 # --------------------------------------------------------------------- (b)
 
-OPS = ["c", "n", "s", "2", "r", "l", "m", "i", "p", "y", "g", "q", "u"]
+OPS = ["c", "n", "s", "2", "r", "l", "m", "i", "p", "y", "g", "q", "u", "d"]
 OP_DOC = {
     "c": "K                          fresh constant",
     "n": "None                       None-valued form",
@@ -225,6 +225,7 @@ OP_DOC = {
     "y": "(setv K)                   compile-time syntax error",
     "g": "(let [a K] (nonlocal zq) a)  compile-time error raised when the global scope is left (state kept by the REPL's one compiler)",
     "q": "(defn fq [] (defmacro lmq [] K) (setv K))   compile-time error inside a function scope that has defined a local macro",
+    "d": "(defreader rq 'K) #rq      a reader macro defined and used in ONE input (forms are read one at a time, as in a script)",
     "u": "(lmq)                      call of a name that is a macro only locally inside fq: a NameError at top level, always",
 }
 FAILS = {"r": "runtime", "l": "reader", "m": "macro", "y": "compile", "g": "compile", "q": "compile", "u": "runtime"}
@@ -249,6 +250,7 @@ def op_lines(op, k):
         "g": ["(let [a %d] (nonlocal zq) a)" % k],
         "q": ["(defn fq [] (defmacro lmq [] %d) (setv %d))" % (k, k)],
         "u": ["(lmq)"],
+        "d": ["(defreader rq '%d) #rq" % k],
     }[op]
 
 
@@ -274,6 +276,8 @@ class HistModel:
         elif op == "s":
             v = None
             self.x = k
+        elif op == "d":
+            v = k
         elif op == "2":
             v = k + 2
         elif op == "i":
